@@ -11,6 +11,8 @@ REGISTRY = {
     'C13': 'contracts.c13_slicer',
     'C14': 'contracts.c14_parse',
     'C16': 'contracts.c16_recipe',
+    'C18': 'contracts.c18_config',
+    'C19': 'contracts.c19_text',
     'C01': ('contracts.propsets', 'C01'),
     'C02': ('contracts.propsets', 'C02'),
     'C03': ('contracts.propsets', 'C03'),
